@@ -51,6 +51,9 @@ pub fn c01(t: &Trace, r: &mut Report) {
     // a release from the value being output when the gate-off arrived
     let mut on_lvl: Option<f64> = Some(0.0);
     let mut off_lvl: Option<f64> = Some(0.0);
+    // the gate as the caller drove it: while it is held the envelope is in attack, decay or sustain, otherwise in
+    // release or at rest (the phase the implementation reports is checked against this, not trusted)
+    let mut gate_high = false;
     for i in 0..t.ops.len() {
         let op = &t.ops[i];
         if op.is_empty() {
@@ -62,6 +65,7 @@ pub fn c01(t: &Trace, r: &mut Report) {
             on_lvl = Some(0.0);
             off_lvl = Some(0.0);
             prev_state = 0;
+            gate_high = false;
         }
         if op[0] != "adsr" && !matches!(op[0], "tick" | "gate_on" | "gate_off" | "set" | "setacc") {
             continue;
@@ -76,6 +80,25 @@ pub fn c01(t: &Trace, r: &mut Report) {
         r.eval();
         if !(o.value >= 0.0 && o.value <= 1.0) {
             r.fail(i, start, "range", format!("envelope value {} outside [0,1]", o.value));
+        }
+        match op[0] {
+            "gate_on" => gate_high = true,
+            "gate_off" => gate_high = false,
+            _ => {}
+        }
+        if gate_high != matches!(o.st, 1 | 2 | 3) {
+            r.fail(
+                i,
+                start,
+                "phase",
+                format!(
+                    "gate {} but the envelope is in phase {} (value {}, sustain level {})",
+                    if gate_high { "held" } else { "released" },
+                    o.st,
+                    o.value,
+                    o.s
+                ),
+            );
         }
         match op[0] {
             "gate_on" => {
@@ -241,6 +264,21 @@ pub fn c02(t: &Trace, r: &mut Report) {
                         _ => o.r,
                     } as f64;
                     let n = (tsec * sr).max(1e-9);
+                    // the counter advance this tick used: floor(2^24/N) up to the binary32 roundings of the
+                    // increment (theorem C02.inc_window): anything else makes the phase end early or late
+                    if (100.0..=192000.0).contains(&sr) && (0.000999..=20.0001).contains(&tsec) {
+                        let ideal = P24 / n;
+                        let inc = o.inc as f64;
+                        if inc > ideal * (1.0 + 1e-6) + 1e-9 || inc < ideal * (1.0 - 1e-6) - 1.0 - 1e-9 {
+                            r.fail_d(
+                                i,
+                                start,
+                                "increment",
+                                format!("phase {} of {:.3} ticks advances {} counts per tick instead of about {:.3}: it cannot last the configured time", p.st, n, o.inc, ideal),
+                                vec![("inc".into(), inc), ("ideal".into(), ideal)],
+                            );
+                        }
+                    }
                     ticks += 1;
                     let before = sum;
                     sum += 1.0 / n;
@@ -323,6 +361,10 @@ pub fn c03(t: &Trace, r: &mut Report) {
         match op[0] {
             "setacc" => last = None,
             "tick" => {
+                if !o.value.is_finite() {
+                    r.eval();
+                    r.fail(i, start, "not-a-number", format!("tick produced the output {} (no bound on the step can hold)", o.value));
+                }
                 if let Some((pv, ps)) = last {
                     r.eval();
                     let slope = match state_before {
